@@ -326,6 +326,11 @@ PodTerminal(p) ==
     /\ api.pods[p].ex /\ ~api.pods[p].term
     /\ api' = [api EXCEPT !.pods[p].term = TRUE] /\ UNCHANGED <<own, gone, seed>>
     /\ Mut("Pod", p) /\ Step("PodTerminal", p, "-", "-")
+\* a graceful deletion starts (deletionTimestamp): the pod keeps counting until it is terminal or gone
+PodTerminating(p) ==
+    /\ api.pods[p].ex /\ ~api.pods[p].term /\ api.pods[p].node # ""
+    /\ UNCHANGED <<api, own, gone, seed>>
+    /\ Mut("Pod", p) /\ Step("PodTerminating", p, "-", "-")
 RemovePod(p) ==
     /\ api.pods[p].ex
     /\ api' = [api EXCEPT !.pods[p] = NoPod] /\ UNCHANGED <<own, gone, seed>>
@@ -386,7 +391,7 @@ EnvNext ==
                              \/ ClaimDeleting(c) \/ ClaimTerminating(c) \/ RemoveClaim(c)
     \/ \E p \in PodKeys : \/ \E n \in NodeNames \cup {""}, sh \in PodShapes : CreatePod(p, n, sh)
                           \/ \E n \in NodeNames : BindPod(p, n)
-                          \/ PodTerminal(p) \/ RemovePod(p)
+                          \/ PodTerminal(p) \/ PodTerminating(p) \/ RemovePod(p)
     \/ \E k \in Keys : Mark(k) \/ Unmark(k)
     \/ Restart
 \* Generator bias (no effect when MaxPend is large): once MaxPend deliveries are outstanding the environment waits
